@@ -309,7 +309,6 @@ structure IH1 (fuel : Nat) : Prop where
     Build.expressionList fuel (E n) = (Build.expressionList fuel n).map erExprList
   setExpression : ∀ n, headOk n = true → Build.setExpression fuel (E n) = (Build.setExpression fuel n).map erSet
   rangeExpr : ∀ n, headOk n = true → Build.rangeExpr fuel (E n) = (Build.rangeExpr fuel n).map erRange
-  indexKind : ∀ n, headOk n = true → Build.indexKind fuel (E n) = (Build.indexKind fuel n).map erIndexKind
   indexOperator : ∀ n, headOk n = true →
     Build.indexOperator fuel (E n) = (Build.indexOperator fuel n).map erIndexOp
   indexedIdentifier : ∀ n, headOk n = true →
@@ -372,9 +371,10 @@ theorem step_rangeExpr (ih : IH1 fuel) (n : CNode) (hn : headOk n = true) :
   cases Build.optM (Build.expr fuel) (RangeExpr.start_step_stop n).2.2 <;>
     simp [Except.map, erRange, erOExpr_eq, z]
 
-theorem step_indexKind (ih : IH1 fuel) (n : CNode) (hn : headOk n = true) :
-    Build.indexKind (fuel + 1) (E n) = (Build.indexKind (fuel + 1) n).map erIndexKind := by
-  unfold Build.indexKind
+theorem indexKindOf_E (ih : IH1 fuel) (n : CNode) (hn : headOk n = true) :
+    Build.indexKindOf (Build.setExpression fuel) (Build.expressionList fuel) (E n) =
+      (Build.indexKindOf (Build.setExpression fuel) (Build.expressionList fuel) n).map erIndexKind := by
+  unfold Build.indexKindOf
   rw [kind_E]
   split
   · rw [ih.setExpression n hn]; cases Build.setExpression fuel n <;> simp [Except.map, erIndexKind]
@@ -383,8 +383,9 @@ theorem step_indexKind (ih : IH1 fuel) (n : CNode) (hn : headOk n = true) :
 theorem step_indexOperator (ih : IH1 fuel) (n : CNode) (hn : headOk n = true) :
     Build.indexOperator (fuel + 1) (E n) = (Build.indexOperator (fuel + 1) n).map erIndexOp := by
   unfold Build.indexOperator IndexOperator.index_kind
-  rw [child_supp_E, optM_E n _ hn (fun c hc => child_supp_mem hc) ih.indexKind, span_E]
-  cases Build.optM (Build.indexKind fuel) (support.child IndexKind.canCast n) <;>
+  rw [child_supp_E, optM_E n _ hn (fun c hc => child_supp_mem hc) (indexKindOf_E ih), span_E]
+  cases Build.optM (Build.indexKindOf (Build.setExpression fuel) (Build.expressionList fuel))
+      (support.child IndexKind.canCast n) <;>
     simp [Except.map, erIndexOp, erOIndexKind_eq, z]
 
 theorem step_indexedIdentifier (ih : IH1 fuel) (n : CNode) (hn : headOk n = true) :
@@ -580,7 +581,7 @@ theorem ih1_zero : IH1 0 := by
 
 theorem ih1_succ (ih : IH1 fuel) : IH1 (fuel + 1) :=
   ⟨step_expr ih, step_designator ih, step_scalarType ih, step_expressionList ih, step_setExpression ih,
-   step_rangeExpr ih, step_indexKind ih, step_indexOperator ih, step_indexedIdentifier ih,
+   step_rangeExpr ih, step_indexOperator ih, step_indexedIdentifier ih,
    step_gateOperand ih, step_qubitList ih, step_argList ih, step_parenExpr ih, step_gateCallExpr ih,
    step_gPhaseCallExpr ih, step_modifier ih⟩
 
@@ -590,30 +591,38 @@ theorem ih1 : ∀ fuel, IH1 fuel
 
 /-! ### the functions between the two mutual blocks -/
 
-theorem paramType_E (fuel : Nat) (n : CNode) (hn : headOk n = true) :
-    Build.paramType fuel (E n) = (Build.paramType fuel n).map erParamType := by
-  unfold Build.paramType
-  rw [kind_E]
-  split
-  · rw [(ih1 fuel).scalarType n hn]; cases Build.scalarType fuel n <;> simp [Except.map, erParamType]
-  · simp [Except.map, erParamType, span_E, z]
+theorem paramType_E : ∀ (fuel : Nat) (n : CNode), headOk n = true →
+    Build.paramType fuel (E n) = (Build.paramType fuel n).map erParamType
+  | 0, _, _ => rfl
+  | fuel + 1, n, hn => by
+    simp only [Build.paramType]
+    rw [kind_E]
+    split
+    · rw [(ih1 fuel).scalarType n hn]; cases Build.scalarType fuel n <;> simp [Except.map, erParamType]
+    · simp [Except.map, erParamType, span_E, z]
 
-theorem typedParam_E (fuel : Nat) (n : CNode) (hn : headOk n = true) :
-    Build.typedParam fuel (E n) = (Build.typedParam fuel n).map erTypedParam := by
-  unfold Build.typedParam TypedParam.param_type TypedParam.name TypedParam.old_typed_param
-  simp only [child_supp_E, Option.isSome_map]
-  rw [optM_E n _ hn (fun c hc => child_supp_mem hc) (paramType_E fuel),
-    optM_EK Name.canCast n hn (fun c h1 h2 => name_E h1 h2), span_E]
-  cases Build.optM (Build.paramType fuel) (support.child ParamType.canCast n) <;>
-  cases Build.optM Build.name (support.child Name.canCast n) <;>
-    simp [Except.map, erTypedParam, z]
+theorem typedParam_E : ∀ (fuel : Nat) (n : CNode), headOk n = true →
+    Build.typedParam fuel (E n) = (Build.typedParam fuel n).map erTypedParam
+  | 0, _, _ => rfl
+  | fuel + 1, n, hn => by
+    simp only [Build.typedParam]
+    unfold TypedParam.param_type TypedParam.name TypedParam.old_typed_param
+    simp only [child_supp_E, Option.isSome_map]
+    rw [optM_E n _ hn (fun c hc => child_supp_mem hc) (paramType_E fuel),
+      optM_EK Name.canCast n hn (fun c h1 h2 => name_E h1 h2), span_E]
+    cases Build.optM (Build.paramType fuel) (support.child ParamType.canCast n) <;>
+    cases Build.optM Build.name (support.child Name.canCast n) <;>
+      simp [Except.map, erTypedParam, z]
 
-theorem typedParamList_E (fuel : Nat) (n : CNode) (hn : headOk n = true) :
-    Build.typedParamList fuel (E n) = (Build.typedParamList fuel n).map erTypedParamList := by
-  unfold Build.typedParamList TypedParamList.typed_params
-  rw [children_supp_E, listM_E n _ hn (fun c hc => children_supp_mem hc) (typedParam_E fuel), span_E]
-  cases Build.listM (Build.typedParam fuel) (support.children TypedParam.canCast n) <;>
-    simp [Except.map, erTypedParamList, z]
+theorem typedParamList_E : ∀ (fuel : Nat) (n : CNode), headOk n = true →
+    Build.typedParamList fuel (E n) = (Build.typedParamList fuel n).map erTypedParamList
+  | 0, _, _ => rfl
+  | fuel + 1, n, hn => by
+    simp only [Build.typedParamList]
+    unfold TypedParamList.typed_params
+    rw [children_supp_E, listM_E n _ hn (fun c hc => children_supp_mem hc) (typedParam_E fuel), span_E]
+    cases Build.listM (Build.typedParam fuel) (support.children TypedParam.canCast n) <;>
+      simp [Except.map, erTypedParamList, z]
 
 theorem returnSignature_E (fuel : Nat) (n : CNode) (hn : headOk n = true) :
     Build.returnSignature fuel (E n) = (Build.returnSignature fuel n).map erReturnSignature := by
@@ -629,17 +638,20 @@ theorem qubitType_E (fuel : Nat) (n : CNode) (hn : headOk n = true) :
   cases Build.optM (Build.designator fuel) (support.child Designator.canCast n) <;>
     simp [Except.map, erQubitType, erODesignator_eq, z]
 
-theorem forIterable_E (fuel : Nat) (n : CNode) (hn : headOk n = true) :
-    Build.forIterable fuel (E n) = (Build.forIterable fuel n).map erForIterable := by
-  unfold Build.forIterable ForIterable.set_expression ForIterable.range_expr ForIterable.for_iterable_expr
-  rw [child_supp_E, child_supp_E, child_supp_E,
-    optM_E n _ hn (fun c hc => child_supp_mem hc) (ih1 fuel).setExpression,
-    optM_E n _ hn (fun c hc => child_supp_mem hc) (ih1 fuel).rangeExpr,
-    optM_E n _ hn (fun c hc => child_supp_mem hc) (ih1 fuel).expr, span_E]
-  cases Build.optM (Build.setExpression fuel) (support.child SetExpression.canCast n) <;>
-  cases Build.optM (Build.rangeExpr fuel) (support.child RangeExpr.canCast n) <;>
-  cases Build.optM (Build.expr fuel) (support.child Expr.canCast n) <;>
-    simp [Except.map, erForIterable, erOExpr_eq, z]
+theorem forIterable_E : ∀ (fuel : Nat) (n : CNode), headOk n = true →
+    Build.forIterable fuel (E n) = (Build.forIterable fuel n).map erForIterable
+  | 0, _, _ => rfl
+  | fuel + 1, n, hn => by
+    simp only [Build.forIterable]
+    unfold ForIterable.set_expression ForIterable.range_expr ForIterable.for_iterable_expr
+    rw [child_supp_E, child_supp_E, child_supp_E,
+      optM_E n _ hn (fun c hc => child_supp_mem hc) (ih1 fuel).setExpression,
+      optM_E n _ hn (fun c hc => child_supp_mem hc) (ih1 fuel).rangeExpr,
+      optM_E n _ hn (fun c hc => child_supp_mem hc) (ih1 fuel).expr, span_E]
+    cases Build.optM (Build.setExpression fuel) (support.child SetExpression.canCast n) <;>
+    cases Build.optM (Build.rangeExpr fuel) (support.child RangeExpr.canCast n) <;>
+    cases Build.optM (Build.expr fuel) (support.child Expr.canCast n) <;>
+      simp [Except.map, erForIterable, erOExpr_eq, z]
 
 /-! ### second mutual block -/
 
@@ -648,10 +660,6 @@ structure IH2 (fuel : Nat) : Prop where
   blockExpr : ∀ n, headOk n = true → Build.blockExpr fuel (E n) = (Build.blockExpr fuel n).map erBlock
   blockOrStmt : ∀ v, headOk (bosNode v) = true →
     Build.blockOrStmt fuel v.mapE = (Build.blockOrStmt fuel v).map erBos
-  accBos : ∀ r : PRes BlockOrStmt, (∀ v, r = .ok v → headOk (bosNode v) = true) →
-    Build.accBos fuel (r.map BlockOrStmt.mapE) = (Build.accBos fuel r).map erAccBos
-  optBos : ∀ o : Option BlockOrStmt, (∀ v, o = some v → headOk (bosNode v) = true) →
-    Build.optBos fuel (o.map BlockOrStmt.mapE) = (Build.optBos fuel o).map (Option.map erBos)
   caseExpr : ∀ n, headOk n = true → Build.caseExpr fuel (E n) = (Build.caseExpr fuel n).map erCase
 
 theorem step_blockExpr (ih : IH2 fuel) (n : CNode) (hn : headOk n = true) :
@@ -671,22 +679,24 @@ theorem step_blockOrStmt (ih : IH2 fuel) (v : BlockOrStmt) (hv : headOk (bosNode
     simp only [BlockOrStmt.mapE, Build.blockOrStmt]
     rw [ih.stmt s hv]; cases Build.stmt fuel s <;> simp [Except.map, erBos]
 
-theorem step_accBos (ih : IH2 fuel) (r : PRes BlockOrStmt)
+theorem accBosOf_E (ih : IH2 fuel) (r : PRes BlockOrStmt)
     (hr : ∀ v, r = .ok v → headOk (bosNode v) = true) :
-    Build.accBos (fuel + 1) (r.map BlockOrStmt.mapE) = (Build.accBos (fuel + 1) r).map erAccBos := by
+    Build.accBosOf fuel (Build.blockOrStmt fuel) (r.map BlockOrStmt.mapE) =
+      (Build.accBosOf fuel (Build.blockOrStmt fuel) r).map erAccBos := by
   cases r with
-  | panic => rfl
+  | panic => simp only [PRes.map, Build.accBosOf]; split <;> rfl
   | ok v =>
-    simp only [PRes.map, Build.accBos]
+    simp only [PRes.map, Build.accBosOf]
     rw [ih.blockOrStmt v (hr v rfl)]; cases Build.blockOrStmt fuel v <;> simp [Except.map, erAccBos]
 
-theorem step_optBos (ih : IH2 fuel) (o : Option BlockOrStmt)
+theorem optBosOf_E (ih : IH2 fuel) (o : Option BlockOrStmt)
     (ho : ∀ v, o = some v → headOk (bosNode v) = true) :
-    Build.optBos (fuel + 1) (o.map BlockOrStmt.mapE) = (Build.optBos (fuel + 1) o).map (Option.map erBos) := by
+    Build.optBosOf (Build.blockOrStmt fuel) (o.map BlockOrStmt.mapE) =
+      (Build.optBosOf (Build.blockOrStmt fuel) o).map (Option.map erBos) := by
   cases o with
   | none => rfl
   | some v =>
-    simp only [Option.map_some, Build.optBos]
+    simp only [Option.map_some, Build.optBosOf]
     rw [ih.blockOrStmt v (ho v rfl)]; cases Build.blockOrStmt fuel v <;> simp [Except.map]
 
 theorem step_caseExpr (ih : IH2 fuel) (n : CNode) (hn : headOk n = true) :
@@ -713,18 +723,18 @@ theorem step_stmt (ih : IH2 fuel) (n : CNode) (hn : headOk n = true) :
   · -- IF_STMT
     rw [condition_E, if_true_body_E, if_false_body_E,
       optM_E n (IfStmt.condition n) hn (fun c hc => condition_mem hc) i1.expr,
-      ih.accBos _ (fun v hv => headOk_children hn (if_true_body_mem hv)),
-      ih.optBos _ (fun v hv => headOk_children hn (if_false_body_mem hv)), span_E]
+      accBosOf_E ih _ (fun v hv => headOk_children hn (if_true_body_mem hv)),
+      optBosOf_E ih _ (fun v hv => headOk_children hn (if_false_body_mem hv)), span_E]
     cases Build.optM (Build.expr fuel) (IfStmt.condition n) <;>
-    cases Build.accBos fuel (IfStmt.true_body_block_or_stmt n) <;>
-    cases Build.optBos fuel (IfStmt.false_body_block_or_stmt n) <;>
+    cases Build.accBosOf fuel (Build.blockOrStmt fuel) (IfStmt.true_body_block_or_stmt n) <;>
+    cases Build.optBosOf (Build.blockOrStmt fuel) (IfStmt.false_body_block_or_stmt n) <;>
       simp [Except.map, erStmt, erOExpr_eq, erOBos_eq, z]
   · -- WHILE_STMT
     rw [while_condition_E, while_block_or_stmt_E,
       optM_E n (WhileStmt.condition n) hn (fun c hc => condition_mem hc) i1.expr,
-      ih.accBos _ (fun v hv => headOk_children hn (while_body_mem hv)), span_E]
+      accBosOf_E ih _ (fun v hv => headOk_children hn (while_body_mem hv)), span_E]
     cases Build.optM (Build.expr fuel) (WhileStmt.condition n) <;>
-    cases Build.accBos fuel (WhileStmt.block_or_stmt n) <;>
+    cases Build.accBosOf fuel (Build.blockOrStmt fuel) (WhileStmt.block_or_stmt n) <;>
       simp [Except.map, erStmt, erOExpr_eq, z]
   · -- FOR_STMT
     unfold ForStmt.loop_var ForStmt.scalar_type ForStmt.for_iterable
@@ -732,11 +742,11 @@ theorem step_stmt (ih : IH2 fuel) (n : CNode) (hn : headOk n = true) :
       optM_EK Name.canCast n hn (fun c h1 h2 => name_E h1 h2),
       optM_E n _ hn (fun c hc => child_supp_mem hc) i1.scalarType,
       optM_E n _ hn (fun c hc => child_supp_mem hc) (forIterable_E fuel),
-      ih.accBos _ (fun v hv => headOk_children hn (for_body_mem hv)), span_E]
+      accBosOf_E ih _ (fun v hv => headOk_children hn (for_body_mem hv)), span_E]
     cases Build.optM Build.name (support.child Name.canCast n) <;>
     cases Build.optM (Build.scalarType fuel) (support.child ScalarType.canCast n) <;>
     cases Build.optM (Build.forIterable fuel) (support.child ForIterable.canCast n) <;>
-    cases Build.accBos fuel (ForStmt.block_or_stmt n) <;>
+    cases Build.accBosOf fuel (Build.blockOrStmt fuel) (ForStmt.block_or_stmt n) <;>
       simp [Except.map, erStmt, erOScalarType_eq, z]
   · -- SWITCH_CASE_STMT
     unfold SwitchCaseStmt.control SwitchCaseStmt.case_exprs SwitchCaseStmt.default_block
@@ -877,7 +887,7 @@ theorem ih2_zero : IH2 0 := by
   constructor <;> intros <;> rfl
 
 theorem ih2_succ (ih : IH2 fuel) : IH2 (fuel + 1) :=
-  ⟨step_stmt ih, step_blockExpr ih, step_blockOrStmt ih, step_accBos ih, step_optBos ih, step_caseExpr ih⟩
+  ⟨step_stmt ih, step_blockExpr ih, step_blockOrStmt ih, step_caseExpr ih⟩
 
 theorem ih2 : ∀ fuel, IH2 fuel
   | 0 => ih2_zero
